@@ -17,6 +17,7 @@ SCHEMA = f'''<xs:schema {XS} targetNamespace="urn:t" xmlns:t="urn:t" elementForm
       <xs:element name="name" type="xs:token"/><xs:element name="qty" type="xs:positiveInteger" minOccurs="0"/>
       <xs:element name="price" type="xs:decimal" minOccurs="0"/><xs:element name="flag" type="xs:boolean" minOccurs="0"/>
       <xs:element name="when" type="xs:date" minOccurs="0"/><xs:element name="codes" minOccurs="0"><xs:simpleType><xs:list itemType="xs:int"/></xs:simpleType></xs:element>
+      <xs:element name="tags" type="t:ints" minOccurs="0" maxOccurs="unbounded"/>
       <xs:element name="note" minOccurs="0" maxOccurs="2"><xs:complexType><xs:simpleContent><xs:extension base="xs:string"><xs:attribute name="lang" type="xs:language"/></xs:extension></xs:simpleContent></xs:complexType></xs:element>
       <xs:element name="amount" minOccurs="0"><xs:complexType><xs:simpleContent><xs:extension base="xs:decimal"><xs:attribute name="cur" type="xs:token"/></xs:extension></xs:simpleContent></xs:complexType></xs:element>
       <xs:element name="on" minOccurs="0"><xs:complexType><xs:simpleContent><xs:extension base="xs:boolean"><xs:attribute name="src" type="xs:token"/></xs:extension></xs:simpleContent></xs:complexType></xs:element>
@@ -38,6 +39,7 @@ def gen(rng):
         if rng.random() < .5: parts.append(f'<t:flag>{rng.choice(["true", "0", "1", "false"])}</t:flag>')
         if rng.random() < .5: parts.append(f'<t:when>{rng.choice(["2020-02-29", "1999-12-31Z", "2001-01-01+05:00"])}</t:when>')
         if rng.random() < .5: parts.append(f'<t:codes>{rng.choice(["1 2 3", "", "7"])}</t:codes>')
+        for _ in range(rng.randrange(0, 4) if rng.random() < .5 else 0): parts.append(f'<t:tags>{rng.choice(["", "1 2", "7", ""])}</t:tags>')      # repeated list-typed element, empty occurrences included
         for _ in range(rng.randrange(0, 3)): parts.append(f'<t:note lang="en">{rng.choice(["hi", "", " sp "])}</t:note>')
         if rng.random() < .5: parts.append(f'<t:amount cur="EUR">{rng.choice(["0", "0.0", "12.5", "-0"])}</t:amount>')       # falsy typed values in simple content
         if rng.random() < .5: parts.append(f'<t:on src="ui">{rng.choice(["false", "0", "true"])}</t:on>')
